@@ -310,7 +310,7 @@ def lifecycle_ops(rng, case, n_steps, profile, reentrant=False):
 def _gen13(args):
     seed, profile_name, steps, wrap = args
     if profile_name not in ("life2", "life2-reentrant"):
-        return S.make_case(random.Random(seed), profile_name, steps, wrap)
+        return S._gen(args)
     rng = random.Random(seed)
     if wrap:
         tsnA, tsnB = (2**32 - rng.randrange(1, 40)) % 2**32, (2**32 - rng.randrange(1, 40)) % 2**32
@@ -530,7 +530,7 @@ class World(S.WorldComponent):
                 "at_most_one_event", "buffered_exact", "buffered_react", "evLow_exact", "addBuffered_core_react", "closed_all",
                 "negotiated_exact_id", "react_sends_only_when_open", "reactions_one_shot", "flush_fuel_suffices", "reset_deferred",
                 "flushLoop_ids_in_range"]
-    mix = [("life2", False, 4), ("lifecycle", False, 2), ("life2", True, 1), ("mixed-pr", False, 1), ("life2-reentrant", False, 3)]
+    mix = [("early", False, 1), ("life2", False, 4), ("lifecycle", False, 2), ("life2", True, 1), ("mixed-pr", False, 1), ("life2-reentrant", False, 3)]
     quick = (32, 220)
     thorough = (400, 450)
     oracles = [S.oracle_no_crash, oracle_c13_local, oracle_c13_extra, S.oracle_c01, S.oracle_c06]
